@@ -44,6 +44,10 @@ CHECKS = {
  "C07": dict(cat="model_checking", tech=PF % "C07" + "; the YAML wiring is covered by a conformance driver through startProxy with real sockets (no design to model-check there)",
     text="Stamping relation: rport {absent, valueless, spoofed} x received {absent, spoofed} x 1-3 (quick) / 1-4 (thorough) Via entries x received-support on/off x relaying paths model-checked and executed; plus the wiring: objects created by loadConfigFromReader + startProxy for no-received true/false/absent with a real UDP listener, an accepted TCP connection and the readers of outbound TCP connections (TCP backend, TCP next hop), judged by the same relation.",
     note=TB + "the wiring part is conformance only (configuration plumbing); deadlines of 2 s on loopback deliveries.", ref="5/C07"),
+ "C04": dict(cat="model_checking", tech="TLA+ Sticky spec (pool rotation x pin table x dialog events): TLC exhaustive over all event interleavings; TLC-sampled histories replayed through the real message loop; Trace_Sticky maintains the declarative history variable `answered` and judges every dispatch",
+    text="Sticky.tla model-checked over all interleavings of 2 dialogs x 3 backends x {initial, tagged answer, in-dialog request of 7 methods, unrelated, backend SUBSCRIBE answered, BYE answered, NOTIFY terminated} to depth 8 (quick) / 10 (thorough); the method-name exclusion of the pinned tree is shown to violate Sticky. "
+         "TLC-sampled and random histories (1-50 dialogs, 2-6 backends, both directions, 10 methods, tags with '-', equal URIs) run through a real Proxy loop with Backend doubles registered via the real AddBackend event path; TLC judges every dispatch against `answered`.",
+    note=TB + "dialog identity in the trace spec is the declarative one of C16; lifetime expiry is C15's business.", ref="5/C04"),
 }
 NA_REASON = "check not built yet (work in progress; see DESIGN.md section 9)"
 
